@@ -11,7 +11,9 @@ MANIFEST = dict(
          "frame_bounds_ordered, reversed_rows_means_not_given, emitFrame_none_iff / default_frame_no_order / "
          "whole_partition_is_written_under_order (frame elision), last_without_frame_counterexample (functions without frame support "
          "see SQL's implicit frame: `last` under a sort is NOT the last of the partition - a genuine defect), "
-         "window_preserves_row_count, window_extends_rows, winColumn_partition_local. Ties: the frame clause the real compiler writes "
+         "window_preserves_row_count, window_extends_rows, winColumn_partition_local, frame_is_contiguous / expanding_frame_is_prefix / "
+         "rolling_frame_is_last_n (row i of a partition of any length sees the first i+1 rows under expanding, the last min(n, i+1) of them "
+         "under rolling:n). Ties: the frame clause the real compiler writes "
          "into OVER(...) is compared with the mirror for every function x parameter combination x sort/no sort; window-focused "
          "generated programs (partition/sort/frame kinds/bounds/12 functions, in derive and before filter/sort/take/join and splits) "
          "are executed on SQLite and compared with the reference window semantics of Model.Rel.",
@@ -39,7 +41,8 @@ def run(ctx):
         required_theorems=["rolling_is_rows", "expanding_is_rows", "no_window_is_whole_partition", "params_precedence",
                            "frame_translation", "frame_bounds_ordered", "reversed_rows_means_not_given", "emitFrame_none_iff",
                            "whole_partition_is_written_under_order", "last_without_frame_counterexample",
-                           "window_preserves_row_count", "window_extends_rows"])
+                           "window_preserves_row_count", "window_extends_rows", "frame_is_contiguous",
+                           "expanding_frame_is_prefix", "rolling_frame_is_last_n"])
     ctx.rule = ("(i) 12 functions x window parameters (none, rows a..b over {open,-2..2}, range a..b, rolling 1..3, expanding, reversed "
                 "bounds) x {sort, no sort}: frame text inside OVER(...) of the real SQL vs the Lean mirror (exhaustive); (ii) generated "
                 "programs with windowed derives (plain / group / group+sort / sort+window / group+sort+window) mixed with filter, "
